@@ -64,7 +64,7 @@ type uciSim struct {
 }
 
 func newUCISim(k *Kernel, t *tape.Tape, res *core.RunResult, w Wiring, opts engine.Options) *uciSim {
-	s := &uciSim{k: k, t: t, res: res, maxSteps: 12000}
+	s := &uciSim{k: k, t: t, res: res, maxSteps: core.Scale(12000, 40000)}
 	s.ctx, s.cancel = context.WithCancel(context.Background())
 	s.b = Build(s.ctx, k, w, opts, int64(t.Choose(1<<16)), int64(t.Choose(1<<16)))
 	s.in = make(chan string)
